@@ -58,6 +58,7 @@ DEFAULT_KW = {("la.lu_factor", "overwrite_a"): False, ("la.lu_solve", "overwrite
 VIEW_CALLS = {"np.asarray", "np.atleast_1d", "np.atleast_2d", "np.ravel", ".ravel", ".reshape", ".squeeze", ".view", "np.squeeze",
               "np.asanyarray", "np.transpose", ".transpose", "index2slice", "np.ascontiguousarray", "np.asfortranarray"}
 MAXPATHS = 6000
+_BUILTIN_NAMES = frozenset(n for n in dir(__import__("builtins")) if not n.startswith("_") and n not in ("None", "NotImplemented", "Ellipsis"))
 
 
 def op(name, *args):
@@ -106,6 +107,10 @@ class _Raise(Exception):
 
 
 class _LoopCtl(Exception):
+    pass
+
+
+class _Break(_LoopCtl):
     pass
 
 
@@ -301,8 +306,10 @@ class Path:
                     if o.none_like is not None:
                         return self._truth(op("is", o.none_like, NONE))
                     return False
-                if x[0] in ("op", "tup", "lst", "slice", "ld"):
+                if x[0] in ("op", "tup", "lst", "slice", "ld", "fn", "partial"):
                     return False
+                if x[0] == "g" and ("." in x[1] or x[1] in _BUILTIN_NAMES):
+                    return False            # np.abs, operator.gt, abs, len ...: a function passed as a value
                 if x[0] == "call" and (x[1] in ("la.lu_factor", ".copy", ".nonzero", "slice") or (x[1].startswith("np.") and x[1] != "np.where")):
                     return False
                 if x[0] == "idx" and x[1][0] == "call" and x[1][1] == ".nonzero":
@@ -362,7 +369,7 @@ class Path:
     def _isinstance(self, c):
         x, ty = c[2][0], c[2][1]
         if ty == ("g", "slice"):
-            if x[0] == "call" and x[1] == "slice":
+            if (x[0] == "call" and x[1] == "slice") or x[0] == "slice":
                 return True
             if x[0] in ("ref", "op", "tup", "lst", "c") or (x[0] == "call" and x[1] in ("np.ix_", ".nonzero", "np.arange")):
                 return False
@@ -515,10 +522,12 @@ class Path:
         items = self._iter_items(it)
         out = []
 
-        def one(x):
+        def one(x, generic=False):
             self.assign(g.target, x, nf, n)
             for c in g.ifs:
-                if not self.test(c, nf):
+                if generic:
+                    self.eval(c, nf)            # a filter on a generic element decides nothing about the rest of the path: read, not assumed
+                elif not self.test(c, nf):
                     return
             if isinstance(n, ast.DictComp):
                 out.append((self.eval(n.key, nf), self.eval(n.value, nf)))
@@ -536,7 +545,7 @@ class Path:
             return (("lst",) if isinstance(n, ast.ListComp) else ("tup",)) + tuple(out)
         self.loops = self.loops + [it]
         try:
-            one(("elem", it))
+            one(("elem", it), generic=True)
         finally:
             self.loops = self.loops[:-1]
         if isinstance(n, ast.DictComp):
@@ -583,11 +592,7 @@ class Path:
     def _load(self, b, i):
         if b in (("g", "np.s_"), ("g", "np.index_exp")):
             # np.s_[a:b] is the slice object itself
-            if b[1] == "np.s_" and i[0] == "slice":
-                return ("call", "slice", tuple(i[1:]), ())
-            if i[0] == "tup":
-                return ("tup",) + tuple(("call", "slice", tuple(x[1:]), ()) if x[0] == "slice" else x for x in i[1:])
-            return i if b[1] == "np.s_" else ("tup", ("call", "slice", tuple(i[1:]), ()) if i[0] == "slice" else i)
+            return i if (b[1] == "np.s_" or i[0] == "tup") else ("tup", i)
         if b[0] == "idx" and is_const(i) and isinstance(i[1], int) and not isinstance(i[1], bool) and i[1] >= 0 and b[2][0] == "slice":
             # x[lo:hi][k] is x[lo + k] when the bounds are known and k lies inside
             lo, hi, st_ = b[2][1:]
@@ -599,6 +604,8 @@ class Path:
         v = self._through_column(b, i)
         if v is not None:
             return self._load(v[0], v[1])
+        if b[0] == "attr" and b[2] == "__dict__" and is_const(i) and isinstance(i[1], str):
+            return self._getattr(b[1], i[1])
         if b[0] in ("tup", "lst"):
             if is_const(i) and isinstance(i[1], int) and -len(b) + 1 <= i[1] < len(b) - 1:
                 return b[1:][i[1]]
@@ -887,6 +894,24 @@ class Path:
             for x in (items if len(args) == 2 else items[1:]):
                 acc = self._binop("add", acc, x)
             return acc
+        # ---- reductions over a literal list are the nested binary application: np.fmax.reduce([a, b]) is np.fmax(a, b)
+        if name.endswith(".reduce") and name[:-7] in ("np.fmax", "np.fmin", "np.maximum", "np.minimum", "np.add", "np.multiply") and len(args) == 1 \
+                and args[0][0] in ("tup", "lst") and len(args[0]) >= 3 and all(k == "axis" and v == ("c", 0) for k, v in kws):
+            acc = args[0][1]
+            for x in args[0][2:]:
+                acc = self._builtin(name[:-7], [acc, x], [], n)
+            return acc
+        if name == "functools.reduce" and 2 <= len(args) <= 3 and not kws and args[1][0] in ("tup", "lst") and len(args[1]) + len(args) >= 5:
+            items = list(args[1][1:])
+            acc = args[2] if len(args) == 3 else items.pop(0)
+            for x in items:
+                acc = self.apply(args[0], [acc, x], [], n, None)
+            return acc
+        if name == "np.sum" and len(args) == 1 and args[0][0] in ("tup", "lst") and len(args[0]) >= 3 and tuple(kws) == (("axis", ("c", 0)),):
+            acc = args[0][1]
+            for x in args[0][2:]:
+                acc = self._binop("add", acc, x)
+            return acc
         if name == "reversed" and len(args) == 1 and not kws and args[0][0] in ("tup", "lst"):
             return ("tup",) + tuple(args[0][1:][::-1])
         if name == "map" and len(args) >= 2 and not kws and all(self._iter_items(a) is not None for a in args[1:]):
@@ -976,7 +1001,7 @@ class Path:
                 a = [NONE, a[0], NONE]
             elif len(a) == 2:
                 a = [a[0], a[1], NONE]
-            return ("call", "slice", tuple(a), ())
+            return ("slice",) + tuple(a) if len(a) == 3 else ("call", "slice", tuple(a), ())
         if name == "len" and len(args) == 1 and args[0][0] in ("tup", "lst"):
             return ("c", len(args[0]) - 1)
         if name == "isinstance":
@@ -992,6 +1017,8 @@ class Path:
         v = self._through_column(base, idx)
         if v is not None:
             base, idx = v
+        if base[0] == "attr" and base[2] == "__dict__" and is_const(idx) and isinstance(idx[1], str) and not aug:
+            return self._setattr(base[1], idx[1], val, node)
         st = self._st(base, create=True)
         if st.kind == "dict" or (st.kind == "opaque" and is_const(idx) and isinstance(idx[1], str)):
             st.items[idx] = val
@@ -1092,8 +1119,13 @@ class Path:
                     self.assign(s.target, x, fr, s)
                     try:
                         self.block(s.body, fr)
+                    except _Break:
+                        break
                     except _LoopCtl:
                         pass
+                else:
+                    self.block(s.orelse, fr)
+                return
             else:
                 before = set(fr.locals)
                 self.loops = self.loops + [it]
@@ -1155,7 +1187,9 @@ class Path:
             dv.update({x.arg: self.eval(d, fr) for x, d in zip(a.kwonlyargs, a.kw_defaults) if d is not None})
             self.fndefaults[fv[1]] = dv
             fr.locals[s.name] = fv
-        elif isinstance(s, (ast.Break, ast.Continue)):
+        elif isinstance(s, ast.Break):
+            raise _Break()
+        elif isinstance(s, ast.Continue):
             raise _LoopCtl()
         elif isinstance(s, (ast.Import, ast.ImportFrom)):
             canon = import_aliases(s)
